@@ -51,10 +51,14 @@ PROGS = {
     'nested_force': (True, -1, [['acq', 0, 'plain', True, None, 51, 0], ['acq', 0, 'plain', True, None, 51, 0],
                                 ['rel', 0, True]]),
     'nonblocking': (False, -1, [['acq', 0, 'plain', False, None, 51, 0], ['rel', 0, False]]),
+    # the holder starts a long-lived helper process while inside (the FileLock program is unchanged)
+    'blocking_helper': (False, -1, [['acq', 0, 'plain', True, None, 51, 0], ['rel', 0, False]]),
+    'nested_helper': (True, -1, [['acq', 0, 'plain', True, None, 51, 0], ['acq', 0, 'plain', True, None, 51, 0],
+                                 ['rel', 0, False], ['rel', 0, False]]),
 }
 SCENS = ['alone', 'holder', 'waiter']
 SCEN_CODE = {'alone': 0, 'holder': 1, 'waiter': 2}
-BLOCKS_BEHIND_HOLDER = {'blocking', 'with', 'nested', 'nested_force'}
+BLOCKS_BEHIND_HOLDER = {'blocking', 'with', 'nested', 'nested_force', 'blocking_helper', 'nested_helper'}
 
 
 def mk(program, scen, n):
@@ -85,7 +89,8 @@ def explain_exprs(case, o):
 
 def corpus():
     return [mk('blocking', 'alone', 30), mk('nested', 'waiter', 50), mk('timed', 'holder', 60),
-            mk('blocking', 'holder', 0), mk('with', 'waiter', 27), mk('nested_force', 'alone', 55)]
+            mk('blocking', 'holder', 0), mk('with', 'waiter', 27), mk('nested_force', 'alone', 55),
+            mk('blocking_helper', 'alone', 40), mk('nested_helper', 'alone', 48), mk('blocking_helper', 'waiter', 38)]
 
 
 def _dry(args):
